@@ -41,3 +41,15 @@ func init() {
 		Parts: []*PartSpec{{Name: "geometry", Harness: "c19", Shards: 8, Generate: genCountExprs}},
 	})
 }
+
+func init() {
+	register("C18", &CheckSpec{
+		Level: "exploration",
+		Assumptions: []string{
+			"field alphabets are boundary values (0,1,max-1,max; lengths 0,1,2,255,256,limit-1,limit); interior values are not enumerated",
+			"values the encoder itself rejects (paths over 1024 bytes, paths containing '..') are outside the domain and only counted",
+			"the signaling envelope is exercised over valid Unicode strings only (JSON text is defined over Unicode); manifest paths include non-UTF-8 byte strings because Linux file names may contain them",
+		},
+		Parts: []*PartSpec{{Name: "roundtrip", Harness: "c18", Shards: 16}},
+	})
+}
